@@ -187,6 +187,8 @@ def stepLine (d : DState) (n : Nat) (line : String) : IO (DState × List String)
       | .throw e => return (d, [hd, s!"R throw {e}", "PS " ++ paramLine p0])
       | .ub k => return (d, [hd, s!"R ub {k.toString}"])
     | "get" :: rest => return (d, [hd, getOp s rest])
+    | ["hex2int", x] => return (d, [hd, s!"V {hex2int (X x)}"])
+    | ["hex2uint", x] => return (d, [hd, s!"V {hex2uint (X x)}"])
     | _ => return (d, [hd, "R badop"])
 
 partial def loop (h : IO.FS.Stream) (out : IO.FS.Stream) (d : DState) (n : Nat) : IO Unit := do
